@@ -160,6 +160,10 @@ func (g *gen) accessor(c pctx) string {
 func (g *gen) chainOf(c pctx, head string) string {
 	n := g.wpick([]int{3, 5, 4, 2, 1})
 	var b strings.Builder
+	// a numeric literal that carries accessors must be parenthesised: "(1).abs()", "(-1)[0]"
+	if n > 0 && head != "" && (head[0] == '-' || (head[0] >= '0' && head[0] <= '9')) {
+		head = "(" + head + ")"
+	}
 	b.WriteString(head)
 	for i := 0; i < n; i++ {
 		b.WriteString(g.accessor(c))
